@@ -32,6 +32,14 @@ def main (_args : List String) : IO Unit := do
       stdout.putStrLn s!"item {id}"
       stdout.putStrLn (runMatchCase toks)
       stdout.putStrLn "end"
+    | "tscase" :: id :: _ =>
+      stdout.putStrLn s!"item {id}"
+      stdout.putStrLn (runTsCase toks)
+      stdout.putStrLn "end"
+    | "kindcase" :: id :: _ =>
+      stdout.putStrLn s!"item {id}"
+      stdout.putStrLn (runKindCase toks)
+      stdout.putStrLn "end"
     | "outcase" :: id :: _ =>
       stdout.putStrLn s!"item {id}"
       stdout.putStrLn (runOutCase toks)
